@@ -441,6 +441,47 @@ func checkC05(c *ctx) {
 	}
 	if bad := retainedMaps(c); bad != "" {
 		c.Violation("C05 doc-number maps returned by a merge belong to the caller\n"+bad, false)
+		return
+	}
+	// inputs whose documents carry nothing but _id (no other field, no composite field): nothing, one
+	// document or everything survives
+	for _, shape := range []string{"all deleted", "one survivor", "nothing deleted"} {
+		var ins []*segEnt
+		var drops [][]uint64
+		var nilBM []bool
+		for si, n := range []int{3, 2} {
+			var b zh.Batch
+			for d := 0; d < n; d++ {
+				b = append(b, zh.Doc{Fields: []zh.Field{zh.IDField(fmt.Sprintf("o%d%02d", si, d))}})
+			}
+			e, err := newBuilt(c, b, 1026, si == 1)
+			must(err)
+			ins = append(ins, e)
+			var dr []uint64
+			for d := 0; d < n; d++ {
+				if shape == "all deleted" || (shape == "one survivor" && !(si == 0 && d == 1)) {
+					dr = append(dr, uint64(d))
+				}
+			}
+			drops, nilBM = append(drops, dr), append(nilBM, false)
+		}
+		mc := &mergeCase{ins: ins, drops: drops, nilBM: nilBM, mode: 1026}
+		c.Case("id-only-"+shape, true)
+		c.Count("merges_of_id_only_segments")
+		bad, r, spec := mergeVerdict(c, mc, parts, true)
+		if bad == "" && r.seg != nil {
+			bad = storedAPIFromSpec(c, r.seg, spec)
+		}
+		if r != nil && r.seg != nil {
+			r.seg.Close()
+		}
+		for _, e := range ins {
+			e.close()
+		}
+		if bad != "" {
+			c.Violation(fmt.Sprintf("C05 merge of two segments (3 + 2 documents) whose documents carry nothing but _id, %s\n%s", shape, clip(bad)), false)
+			return
+		}
 	}
 }
 
